@@ -222,6 +222,35 @@ func runCase(c Case, r *runlog.R) error {
 			}
 		}
 		r.Class("policy=" + st.Policy.String())
+		// between the merges the application reads the result: handles obtained for null settings are empty
+		// configurations of their own; what is written into them is no part of the result
+		for k, n := range m.D {
+			if n == nil || n.Kind != "nil" {
+				continue
+			}
+			for _, cfg := range cfgs {
+				if ch, err := cfg.Child(k, -1); err == nil && ch != nil {
+					ch.SetInt("leak", -1, 1)
+					ch.SetString("", 2, "leak")
+					r.Class("wrote into the handle of a null setting")
+				}
+			}
+		}
+		if w := m.D["w"]; c.Wrap && w != nil && w.Kind == "cont" {
+			for k, n := range w.D {
+				if n == nil || n.Kind != "nil" {
+					continue
+				}
+				for _, cfg := range cfgs {
+					if ch, err := cfg.Child("w", -1); err == nil {
+						if ch2, err := ch.Child(k, -1); err == nil && ch2 != nil {
+							ch2.SetInt("leak", -1, 1)
+							r.Class("wrote into the handle of a null setting")
+						}
+					}
+				}
+			}
+		}
 	}
 	// merge the kept source objects once more, oldest first, into the config that received *Config sources
 	for i, ks := range keptSrc {
